@@ -273,7 +273,7 @@ func (j *Join) JoinMatchFunc(lk string, lv *map[string]any, l, r *HashedTable) (
 		if !ok {
 			return false, nil, INVALID_TYPE.Extend(fmt.Sprintf("failed to build `JOIN` expression, expected boolean but found %T", rsValue))
 		}
-		if rsValue || !j.joinType.IsInner() {
+		if rsValue {
 			b = true
 			if len(j.into) != 0 {
 				current := make(Map)
@@ -309,6 +309,30 @@ func (j *Join) JoinMatchFunc(lk string, lv *map[string]any, l, r *HashedTable) (
 				slice = append(slice, mapper)
 			}
 		}
+	}
+	// outer joins: a row without any partner is emitted once, with the other side NULL
+	if !b && !j.joinType.IsInner() {
+		if len(j.into) != 0 {
+			current := make(Map)
+			if err := Copy(current, l.Rows[lk], j.leftIdent); err != nil {
+				return false, nil, err
+			}
+			if err := Copy(current, nil, j.rightIdent); err != nil {
+				return false, nil, err
+			}
+			maps.Copy(current, *(l.Keys[lk]))
+			out := make(Map)
+			out[j.into] = current
+			slice = append(slice, out)
+			return true, slice, nil
+		}
+		for _, lr := range l.Rows[lk] {
+			mapper := make(Map)
+			maps.Copy(mapper, (*lr).(Map))
+			mapper[j.rightIdent] = nil
+			slice = append(slice, mapper)
+		}
+		return true, slice, nil
 	}
 	return b, slice, nil
 }
